@@ -290,12 +290,19 @@ pub fn fill_hex(num_vars: usize, table: &mut [u64], s: &str) -> Result<(), ()> {
     if s.len() != width * table.len() {
         return Err(());
     }
+    if !s.bytes().all(|b| b.is_ascii_hexdigit()) {
+        return Err(());
+    }
+    let mask = num_vars_mask(num_vars);
 
     for (i, t) in table.iter_mut().rev().enumerate() {
         let ss = &s[i * width..(i + 1) * width];
         let v = u64::from_str_radix(ss, 16);
         match v {
             Ok(v) => {
+                if v & !mask != 0 {
+                    return Err(());
+                }
                 *t = v;
             }
             Err(_) => {
